@@ -14,7 +14,7 @@ for g in gen/gen_*.py; do
 done
 ./lib/mkcoqproject.sh
 cd coq
-timeout 3000 make -j16 >/dev/null
+timeout 3400 make -k -j16 COQC='timeout 1500 coqc' >/dev/null || true
 cd ../harness
 cp /repo/go.sum go.sum
 go build -tags verif -o /dev/null .
